@@ -4,6 +4,7 @@ import struct
 import tempfile
 
 import common
+import whitebox
 import gen_insp
 import images
 import insp_gen_b as G
@@ -205,7 +206,7 @@ def check_error_oracle(fmt, exc_cls):
     data = images.clean(fmt, **kw)[0]
     i, _ = G.feed_inspector(fmt, data, [len(data)])
     bad = []
-    for name, chk in list(i._safety_checks.items()):
+    for name, chk in list(whitebox.safety_checks(i).items()):
         saved = chk.target_fn
 
         def boom():
@@ -231,7 +232,7 @@ def structural_oracle():
     F = G.fi()
     out = []
     for n, cls in F.ALL_FORMATS.items():
-        if not cls()._safety_checks:
+        if not whitebox.safety_checks(cls()):
             out.append('%s declares no safety check' % n)
 
     class NoChecks(F.FileInspector):
